@@ -262,3 +262,89 @@ def typed_unprotected_reads(prog, func, managed_class="FrequencyAxis"):
                 if not in_int_context(pm, x):
                     bad.append(x)
     return total, bad
+
+
+# ----------------------------------------------------------------------
+# representation-dependent reads kept on self
+def cached_managed_reads(prog, cls, managed=("data",), holders=None):
+    """Attributes of self that keep the result of a basis-/units-managed read of another object
+    (`self.A = self.ham.data`, `self.A = ham.data[...]`) and are loaded by a different method.  The
+    managed read returns the representation current at that moment; used later, under another basis
+    or units context, the kept array belongs to the wrong representation.
+    Returns [(attr, storing FuncInfo, store node, [loading FuncInfo])]."""
+    stores = {}
+    for f in cls.methods.values():
+        for n in walk_no_nested(f.node):
+            if isinstance(n, ast.Assign):
+                for t_ in n.targets:
+                    if isinstance(t_, ast.Attribute) and isinstance(t_.value, ast.Name) and t_.value.id == "self":
+                        reads = [x for x in ast.walk(n.value) if isinstance(x, ast.Attribute) and x.attr in managed
+                                 and isinstance(x.ctx, ast.Load) and not (isinstance(x.value, ast.Name) and x.value.id == "self")]
+                        if holders is not None:
+                            reads = [x for x in reads if norm(x.value) in holders]
+                        # a copy taken for bookkeeping of shapes etc. is not a representation: only array reads
+                        reads = [x for x in reads if not isinstance(getattr(x, "_parent", None), ast.Attribute)]
+                        if reads:
+                            stores.setdefault(t_.attr, []).append((f, n))
+    out = []
+    for attr, sts in stores.items():
+        loaders = []
+        for f in cls.methods.values():
+            if any(f is sf for sf, _ in sts):
+                continue
+            if any(isinstance(x, ast.Attribute) and isinstance(x.ctx, ast.Load) and x.attr == attr
+                   and isinstance(x.value, ast.Name) and x.value.id == "self" for x in walk_no_nested(f.node)):
+                loaders.append(f)
+        for sf, n in sts:
+            # `self.A = obj.data.shape[0]` and similar scalars are not representations
+            v = n.value
+            scalar = isinstance(v, ast.Subscript) and isinstance(v.value, ast.Attribute) and v.value.attr == "shape"
+            if not scalar:
+                out.append((attr, sf, n, loaders))
+    return out
+
+
+def constructor_loop_states(prog, cls, ekeys):
+    """Energy entries added to self.lamb directly in __init__ (the branch taken when values are given):
+    for every loop `for D in L` (also through zip) the dictionaries D are RAW when L collects the
+    caller's dictionaries and INT when L collects the converted ones.  Returns
+    [(loop variable, state, sink node)] for every `self.lamb = / +=  D[<energy key>]`."""
+    init = cls.methods["__init__"]
+    conv = set()
+    for n in ast.walk(init.node):
+        if isinstance(n, ast.Assign) and isinstance(n.targets[0], ast.Subscript) and isinstance(n.targets[0].value, ast.Name) \
+                and isinstance(n.value, ast.Call) and call_name(n.value) in CONVERTERS_RAW_TO_INT:
+            conv.add(n.targets[0].value.id)
+    liststate = {}
+    for n in ast.walk(init.node):
+        if isinstance(n, ast.Call) and isinstance(n.func, ast.Attribute) and n.func.attr == "append" and n.args:
+            lst = norm(n.func.value)
+            v = n.args[0]
+            if isinstance(v, ast.Name):
+                st = "INT" if v.id in conv else "RAW"
+                liststate[lst] = st if liststate.get(lst, st) == st else "MIXED"
+    out = []
+    pm = parents_map(init.node)
+    for lp in [n for n in ast.walk(init.node) if isinstance(n, ast.For)]:
+        pairs = []
+        if isinstance(lp.iter, ast.Call) and call_name(lp.iter) == "zip" and isinstance(lp.target, ast.Tuple):
+            pairs = list(zip(lp.target.elts, lp.iter.args))
+        else:
+            pairs = [(lp.target, lp.iter)]
+        for tgt, it_ in pairs:
+            if not isinstance(tgt, ast.Name):
+                continue
+            st = liststate.get(norm(it_))
+            if st is None:
+                continue
+            if in_int_context(pm, lp) and st == "RAW":
+                st = "INT"
+            for n in ast.walk(lp):
+                if isinstance(n, (ast.Assign, ast.AugAssign)):
+                    t_ = n.targets[0] if isinstance(n, ast.Assign) else n.target
+                    if norm(t_) == "self.lamb":
+                        for x in ast.walk(n.value):
+                            if isinstance(x, ast.Subscript) and isinstance(x.value, ast.Name) and x.value.id == tgt.id \
+                                    and isinstance(x.slice, ast.Constant) and x.slice.value in ekeys:
+                                out.append((tgt.id, st, n))
+    return init, out
